@@ -250,7 +250,8 @@ def to_model(data_file: typing.IO, _config = None, progress_callback=lambda _: N
           .replace(r"{italic}", r"<italic>")\
           .replace(r"{/italic}", r"</italic>")\
           .replace(r"{underline}", r"<underline>")\
-          .replace(r"{/underline}", r"</underline>")
+          .replace(r"{/underline}", r"</underline>")\
+          .replace(r"<![", r"&lt;![") # SGML marked sections are not SubRip markup and make HTMLParser fail
 
         parser = _TextParser(current_p, line_index)
         parser.feed(subtitle_text)
